@@ -7,6 +7,7 @@ require (
 	github.com/element-of-surprise/coercion v0.0.0
 	github.com/google/uuid v1.6.0
 	github.com/gostdlib/base v0.0.0-20250328165134-6931dc0137f3
+	zombiezen.com/go/sqlite v1.4.0
 )
 
 require (
@@ -102,7 +103,6 @@ require (
 	sigs.k8s.io/json v0.0.0-20241014173422-cfa47c3a1cc8 // indirect
 	sigs.k8s.io/structured-merge-diff/v4 v4.5.0 // indirect
 	sigs.k8s.io/yaml v1.4.0 // indirect
-	zombiezen.com/go/sqlite v1.4.0 // indirect
 )
 
 replace github.com/element-of-surprise/coercion => /repo
